@@ -95,7 +95,8 @@ package switches
 
 // ---- sendOut: per port, a prefix of the send-out buffer leaves on the port, in order; the rest stays, in order ----
 //@ pred sendCounts(m) = 0 <= sentK(m, c29A) && sentK(m, c29A) <= old(len(m.comp.State.PortComplexes[c29A].SendOutBuffer.elements)) && sentK(m, c29A) <= max(0, m.comp.State.PortComplexes[c29A].NumOutputChannel) && len(m.comp.State.PortComplexes[c29A].SendOutBuffer.elements) == old(len(m.comp.State.PortComplexes[c29A].SendOutBuffer.elements)) - sentK(m, c29A)
-//@ pred sendShift(m) = forall x in 0..len(m.comp.State.PortComplexes[c29A].SendOutBuffer.elements) :: m.comp.State.PortComplexes[c29A].SendOutBuffer.elements[x] == old(m.comp.State.PortComplexes[c29A].SendOutBuffer.elements[x + sentK(m, c29A)])
+// (the index x + k is evaluated in the CURRENT state: old(s)[x + k], not old(s[x + k]))
+//@ pred sendShift(m) = forall x in 0..len(m.comp.State.PortComplexes[c29A].SendOutBuffer.elements) :: m.comp.State.PortComplexes[c29A].SendOutBuffer.elements[x] == old(m.comp.State.PortComplexes[c29A].SendOutBuffer.elements)[x + sentK(m, c29A)]
 //@ pred sendInOrder(m) = forall n int :: old(sendCnt)[pid(m, c29A)] <= n && n < sendCnt[pid(m, c29A)] ==> sentIs(m, c29A, n, n - old(sendCnt)[pid(m, c29A)]) && sentVal[pid(m, c29A)][n] <= allocTop
 //@ pred sendLogKept() = forall p int :: sendCnt[p] >= old(sendCnt)[p] && (forall n int :: n < old(sendCnt)[p] ==> sentTyp[p][n] == old(sentTyp)[p][n] && sentVal[p][n] == old(sentVal)[p][n])
 //@ pred sendOnlyOwn(m, slot) = forall p int :: sendCnt[p] != old(sendCnt)[p] ==> 0 <= slot[p] && slot[p] < pcN(m) && pid(m, slot[p]) == p
@@ -133,3 +134,52 @@ package switches
 //@   loop 1: invariant sendInOrder(m)
 //@   loop 1: invariant sendLogKept()
 //@   loop 1: invariant forall p int :: sendCnt[p] != old(sendCnt)[p] ==> (p == pid(m, i) || (0 <= gslot[p] && gslot[p] < pcN(m) && pid(m, gslot[p]) == p))
+
+// ---- route: per port, a prefix of the route buffer moves to the END of the same port's forward buffer, in order ----
+//@ func mvd(n, r, f) = max(0, min(n, min(r, f)))
+//@ func rtK(m, a) = len(m.comp.State.PortComplexes[a].ForwardBuffer.elements) - old(len(m.comp.State.PortComplexes[a].ForwardBuffer.elements))
+// assumption (precondition): the routing table resolves EVERY destination to a remote port that is a key of portIndex
+//@ pred tableTotal(m) = forall d int :: tblPort(m.routingTable, d) != "" && (tblPort(m.routingTable, d) in m.portIndex)
+//@ pred fwdBufWF(m) = forall a in 0..pcN(m) :: len(m.comp.State.PortComplexes[a].ForwardBuffer.elements) <= max(int(m.comp.State.PortComplexes[a].ForwardBuffer.cap), 0)
+// separation (precondition): the backing array of port A's route buffer / forward buffer is not the (non-nil) backing array of another forward buffer
+//@ pred rtSep(m) = ref(m.comp.State.PortComplexes[c29A].RouteBuffer.elements) <= allocTop && ref(m.comp.State.PortComplexes[c29A].ForwardBuffer.elements) <= allocTop && (forall b in 0..pcN(m) :: ref(m.comp.State.PortComplexes[b].ForwardBuffer.elements) != 0 ==> ref(m.comp.State.PortComplexes[c29A].RouteBuffer.elements) != ref(m.comp.State.PortComplexes[b].ForwardBuffer.elements) && (b != c29A ==> ref(m.comp.State.PortComplexes[c29A].ForwardBuffer.elements) != ref(m.comp.State.PortComplexes[b].ForwardBuffer.elements)))
+// entry y of port A's forward buffer is entry x of its route buffer on entry: all 17 other fields unchanged, OutputBufIdx = portIndex[FindPort(RouteTo)]
+//@ pred routedAs(m, y, x) = m.comp.State.PortComplexes[c29A].ForwardBuffer.elements[y].Flit.MsgMeta.ID == old(m.comp.State.PortComplexes[c29A].RouteBuffer.elements[x].Flit.MsgMeta.ID) && m.comp.State.PortComplexes[c29A].ForwardBuffer.elements[y].Flit.MsgMeta.Src == old(m.comp.State.PortComplexes[c29A].RouteBuffer.elements[x].Flit.MsgMeta.Src) && m.comp.State.PortComplexes[c29A].ForwardBuffer.elements[y].Flit.MsgMeta.Dst == old(m.comp.State.PortComplexes[c29A].RouteBuffer.elements[x].Flit.MsgMeta.Dst) && m.comp.State.PortComplexes[c29A].ForwardBuffer.elements[y].Flit.MsgMeta.TrafficClass == old(m.comp.State.PortComplexes[c29A].RouteBuffer.elements[x].Flit.MsgMeta.TrafficClass) && m.comp.State.PortComplexes[c29A].ForwardBuffer.elements[y].Flit.MsgMeta.TrafficBytes == old(m.comp.State.PortComplexes[c29A].RouteBuffer.elements[x].Flit.MsgMeta.TrafficBytes) && m.comp.State.PortComplexes[c29A].ForwardBuffer.elements[y].Flit.MsgMeta.RspTo == old(m.comp.State.PortComplexes[c29A].RouteBuffer.elements[x].Flit.MsgMeta.RspTo) && m.comp.State.PortComplexes[c29A].ForwardBuffer.elements[y].Flit.SeqID == old(m.comp.State.PortComplexes[c29A].RouteBuffer.elements[x].Flit.SeqID) && m.comp.State.PortComplexes[c29A].ForwardBuffer.elements[y].Flit.NumFlitInMsg == old(m.comp.State.PortComplexes[c29A].RouteBuffer.elements[x].Flit.NumFlitInMsg) && m.comp.State.PortComplexes[c29A].ForwardBuffer.elements[y].Flit.Msg.ID == old(m.comp.State.PortComplexes[c29A].RouteBuffer.elements[x].Flit.Msg.ID) && m.comp.State.PortComplexes[c29A].ForwardBuffer.elements[y].Flit.Msg.Src == old(m.comp.State.PortComplexes[c29A].RouteBuffer.elements[x].Flit.Msg.Src) && m.comp.State.PortComplexes[c29A].ForwardBuffer.elements[y].Flit.Msg.Dst == old(m.comp.State.PortComplexes[c29A].RouteBuffer.elements[x].Flit.Msg.Dst) && m.comp.State.PortComplexes[c29A].ForwardBuffer.elements[y].Flit.Msg.TrafficClass == old(m.comp.State.PortComplexes[c29A].RouteBuffer.elements[x].Flit.Msg.TrafficClass) && m.comp.State.PortComplexes[c29A].ForwardBuffer.elements[y].Flit.Msg.TrafficBytes == old(m.comp.State.PortComplexes[c29A].RouteBuffer.elements[x].Flit.Msg.TrafficBytes) && m.comp.State.PortComplexes[c29A].ForwardBuffer.elements[y].Flit.Msg.RspTo == old(m.comp.State.PortComplexes[c29A].RouteBuffer.elements[x].Flit.Msg.RspTo) && m.comp.State.PortComplexes[c29A].ForwardBuffer.elements[y].Flit.MsgTaskID == old(m.comp.State.PortComplexes[c29A].RouteBuffer.elements[x].Flit.MsgTaskID) && m.comp.State.PortComplexes[c29A].ForwardBuffer.elements[y].TaskID == old(m.comp.State.PortComplexes[c29A].RouteBuffer.elements[x].TaskID) && m.comp.State.PortComplexes[c29A].ForwardBuffer.elements[y].RouteTo == old(m.comp.State.PortComplexes[c29A].RouteBuffer.elements[x].RouteTo) && m.comp.State.PortComplexes[c29A].ForwardBuffer.elements[y].OutputBufIdx == m.portIndex[tblPort(m.routingTable, old(m.comp.State.PortComplexes[c29A].RouteBuffer.elements[x].RouteTo))]
+//@ pred rtCount(m) = 0 <= rtK(m, c29A) && len(m.comp.State.PortComplexes[c29A].RouteBuffer.elements) == old(len(m.comp.State.PortComplexes[c29A].RouteBuffer.elements)) - rtK(m, c29A)
+//@ pred rtExact(m) = rtK(m, c29A) == mvd(m.comp.State.PortComplexes[c29A].NumInputChannel, old(len(m.comp.State.PortComplexes[c29A].RouteBuffer.elements)), old(int(m.comp.State.PortComplexes[c29A].ForwardBuffer.cap) - len(m.comp.State.PortComplexes[c29A].ForwardBuffer.elements)))
+//@ pred rtShift(m) = forall x in 0..len(m.comp.State.PortComplexes[c29A].RouteBuffer.elements) :: m.comp.State.PortComplexes[c29A].RouteBuffer.elements[x] == old(m.comp.State.PortComplexes[c29A].RouteBuffer.elements)[x + rtK(m, c29A)]
+//@ pred rtPrefix(m) = forall x in 0..old(len(m.comp.State.PortComplexes[c29A].ForwardBuffer.elements)) :: m.comp.State.PortComplexes[c29A].ForwardBuffer.elements[x] == old(m.comp.State.PortComplexes[c29A].ForwardBuffer.elements[x])
+//@ pred rtMoved(m) = forall y in old(len(m.comp.State.PortComplexes[c29A].ForwardBuffer.elements))..len(m.comp.State.PortComplexes[c29A].ForwardBuffer.elements) :: routedAs(m, y, y - old(len(m.comp.State.PortComplexes[c29A].ForwardBuffer.elements)))
+//@ pred rtUntouched(m, lo) = forall a in lo..pcN(m) :: len(m.comp.State.PortComplexes[a].ForwardBuffer.elements) == old(len(m.comp.State.PortComplexes[a].ForwardBuffer.elements)) && len(m.comp.State.PortComplexes[a].RouteBuffer.elements) == old(len(m.comp.State.PortComplexes[a].RouteBuffer.elements))
+
+//@ fn (*routeForwardSendMW).route
+//@   property C29
+//@   requires swShape(m) && aPort(m) && tableTotal(m) && fwdBufWF(m) && rtSep(m)
+//@   label C29.route.count
+//@   ensures rtCount(m)
+//@   label C29.route.exact
+//@   ensures rtExact(m)
+//@   label C29.route.keep
+//@   ensures rtShift(m)
+//@   label C29.route.prefix
+//@   ensures rtPrefix(m)
+//@   label C29.route.moved
+//@   ensures rtMoved(m)
+//@   label C29.route.progress
+//@   ensures !result ==> rtK(m, c29A) == 0
+//@   label C29.route.wf
+//@   ensures fwdBufWF(m)
+//@   assigns key("E|noc/networking/switching/switches.portComplexState|.RouteBuffer.elements"), key("E|noc/networking/switching/switches.portComplexState|.ForwardBuffer.elements"), key("E|noc/networking/switching/switches.routedFlit|")
+//@   loop 0: invariant swShape(m) && aPort(m) && tableTotal(m) && fwdBufWF(m) && rtSep(m) && -1 <= rangeindex && rangeindex < len(grp(m))
+//@   loop 0: invariant rtCount(m) && (c29A <= rangeindex ==> rtExact(m)) && (!madeProgress ==> rtK(m, c29A) == 0)
+//@   loop 0: invariant rtUntouched(m, rangeindex + 1)
+//@   loop 0: invariant rtShift(m)
+//@   loop 0: invariant rtPrefix(m)
+//@   loop 0: invariant rtMoved(m)
+//@   loop 1: invariant swShape(m) && aPort(m) && tableTotal(m) && fwdBufWF(m) && rtSep(m) && 0 <= j && j == rtK(m, i) && len(m.comp.State.PortComplexes[i].RouteBuffer.elements) == old(len(m.comp.State.PortComplexes[i].RouteBuffer.elements)) - j
+//@   loop 1: invariant (j > 0 ==> j <= m.comp.State.PortComplexes[i].NumInputChannel) && j <= old(len(m.comp.State.PortComplexes[i].RouteBuffer.elements)) && j <= max(0, old(int(m.comp.State.PortComplexes[i].ForwardBuffer.cap) - len(m.comp.State.PortComplexes[i].ForwardBuffer.elements)))
+//@   loop 1: invariant rtCount(m) && (c29A < i ==> rtExact(m)) && (!madeProgress ==> rtK(m, c29A) == 0)
+//@   loop 1: invariant rtUntouched(m, i + 1)
+//@   loop 1: invariant rtShift(m)
+//@   loop 1: invariant rtPrefix(m)
+//@   loop 1: invariant rtMoved(m)
